@@ -491,6 +491,56 @@ Fixpoint grun (oc : bool) (s : gst) (tr : list (Z * event)) : option gst :=
 (* items pushed and not yet claimed by a worker *)
 Definition unclaimed (s : gst) : list Z := match holder s with Some _ => tl (chain s) | None => chain s end.
 
+(* ------------------------------------------------------------------ counting over the finite support, weights, wake-up tokens
+   (used by the invariants of RootQ_pool_proofs / RootQ_wake_proofs and by their boolean versions in RootQR.v) *)
+Fixpoint tsum (w : pc -> Z) (f : Z -> pc) (l : list Z) : Z :=
+  match l with [] => 0 | u :: l' => w (f u) + tsum w f l' end.
+Definition cnt (w : pc -> Z) (s : gst) : Z := tsum w (pcs s) (seen s).
+
+
+(* ---- weights ---- *)
+Definition is_slow (p : pc) : Z := match p with PSemTimed | PSemLoad | PSemUndo _ | PSemBlocked => 1 | _ => 0 end.
+Definition is_sigpost (p : pc) : Z := match p with PSigPost _ _ _ => 1 | _ => 0 end.
+(* who accounts for one unit of dgq_pending: a poke between its request and the creation of the thread, a created
+   thread that has not started, a worker backing off in the contended wait *)
+Definition w_pend (p : pc) : Z :=
+  match p with
+  | PPoolLoad _ _ _ | PPoolLoop _ _ _ _ | PCreate _ _ | PWStart | PCwEval _ true | PCwEvalT true _ | PCwOut _ => 1
+  | _ => 0
+  end.
+Definition ctxw (c : ctx) : Z := match c with CIn _ => 1 | COut => 0 end.
+Definition kw (k : kont) : Z := match k with KClient c => ctxw c | KGot _ | KNull => 1 | KExit => 0 end.
+(* 1 for a thread of the pool that has not yet given its slot back *)
+Definition wk (p : pc) : Z :=
+  match p with
+  | PNone => 0
+  | PClient c | PPushCall c | PPushXchg c _ | PPushLink c _ _ => ctxw c
+  | PPokeProbe k _ _ | PSigInc k _ _ | PSigPost k _ _ | PPendReq k _ _ | PPoolLoad k _ _ | PPoolLoop k _ _ _ | PCreate k _ => kw k
+  | _ => 1
+  end.
+(* who accounts for one unit taken from dgq_thread_pool_size: a live pool thread, a pthread_create in flight *)
+Definition w_pool (p : pc) : Z := wk p + match p with PCreate _ _ => 1 | _ => 0 end.
+
+
+(* program points that carry the duty to look at the queue or to wake somebody who will:
+   - a pusher whose store to dq_items_head is in flight, then its poke up to the semaphore signal,
+   - any poke up to the semaphore signal, a pthread_create in flight,
+   - a worker that has started / is inside _dispatch_root_queue_drain_one before it decided to sleep (including the
+     contended wait and the holder of the mediator, which re-pokes when it leaves an item behind),
+   - a worker that timed out and is about to give its slot back (it pokes afterwards). *)
+Definition tok (p : pc) : bool :=
+  match p with
+  | PPushLink _ _ prev => prev =? 0
+  | PPokeProbe _ _ _ | PSigInc _ _ _ | PCreate _ _ | PWStart | PDrainXchg | PDrainCasNull | PDrainTail
+  | PCwEval _ _ | PCwEvalT _ _ | PDrainNext _ | PDrainStoreNull _ | PDrainCasTail _ | PDrainWaitNext _ _
+  | PDrainStoreHead _ _ | PExitInc => true
+  | PCwOut st => st =? ST_READY
+  | _ => false
+  end.
+(* signals held by the pool semaphore: banked in dsema_value, being posted, or posted to the kernel semaphore *)
+Definition surplus (s : gst) : Z := Z.max 0 (sval s) + cnt is_sigpost s + ksem s.
+
+
 (* ------------------------------------------------------------------ the monitor's decision
    _dispatch_workq_monitor_pools (event/workqueue.c:259): one pass over the QoS buckets from high to low.
    A bucket is (probe: dq_items_tail != NULL, num_runnable: registered workers whose /proc state is 'R'). *)
